@@ -28,7 +28,7 @@ Report ==
   ELSE LET e   == Tr[l]
            ts  == Toks(e)
            vd  == Verdict(ts, e.obs)
-       IN vd = "ok" \/
+       IN (vd = "ok" /\ "canary" \notin DOMAIN e) \/
           PrintT("VERDICT " \o ToJson([id |-> e.id, vd |-> vd, dev |-> ImplEval(ts).dev,
                                         ref |-> RefEval(ts), imp |-> ImplEval(ts).k]))
 =============================================================================
